@@ -7,6 +7,9 @@ V = Path(__file__).resolve().parent.parent
 
 # finding id -> (property, commit, what failed)
 FIXED = {
+    ("C06", "prologue-tuple-new-name-local-to-setup"): ("d73a7fb", "a new name bound by a file-scope tuple assignment next to existing names was local to setup(); the main loop using it did not compile"),
+    ("C07", "keyword-against-parenthesis-header-dropped"): ("befa577", "`if(x):` / `elif(x):` / `while(x):` headers were dropped silently and `while(True):` / `while (True):` were not the main loop"),
+    ("C02", "hoisted-local-type-shared-between-helpers"): ("e87d46b", "helpers shared the record of hoisted declaration types: a float local hoisted in one helper was declared int because another helper had hoisted an int of the same name"),
     ("C01", "tuple-assign-global-in-helper"): ("dda3a1b", "a tuple assignment to `global` names inside a helper declared locals instead of assigning the globals"),
     ("C09", "list-alias-shallow-copy"): ("b5d87be", "`b = a` for a list shared the buffer: a later append / re-assignment through either name freed it under the other (heap-use-after-free)"),
     ("C09", "list-created-in-loop-leaks"): ("b5d87be", "a list created while loop() runs was never freed (no destructor): the heap grew every pass"),
